@@ -154,3 +154,16 @@ CLAIMS["C15"] = dict(
     note="Exploration level: cryptographic round trips are decided by execution on sampled key pairs; decoders on arbitrary bytes are covered by "
          "structured inputs and their mutation neighbourhoods, not coverage-guided fuzzing. The empty tag is outside the obfuscators' domain.",
 )
+CLAIMS["C10"] = dict(
+    category="model_checking",
+    technique="TLA+ spec Detector.tla: TLC exhaustive (EveryAnnouncementAccepted, DetectorOutlivesStation, SessionMatchesRegistration, ClearEmpties) + trace validation of the real station's published bytes and of the real Rust detector's (src/sessions.rs, compiled unmodified behind stub crates) session map after every message",
+    text="Detector.tla models the station's New / Update / Clear announcements and transcribes the detector's acceptance rules and session map "
+         "(keep-the-longer update, expiry, clear) from src/sessions.rs in the order the Rust code applies them; TLC checks that every announcement is "
+         "accepted, that the detector's session outlives the station's registration in every state and that Clear empties the map (the pre-fix "
+         "dispatch order violates). Both sides of the wire are then real code: admitted registrations of every shape (4 transports incl. UDP x family "
+         "x registrant absent/v4/v6/v4-mapped x port and phantom overrides) go through the real ingest, MarkActive and Cleanup; the published bytes "
+         "are captured by an in-process RESP server, decoded and compared with the registration field by field, then fed to the unmodified "
+         "sessions.rs whose session map is dumped after every message; the combined log is validated against the spec.",
+    note="sessions.rs is built with rustc against stub crates (cargo cannot fetch pnet/redis/protobuf offline); packet-path code is not exercised; "
+         "Redis is an in-process stand-in; remaining lifetimes compared with 3% tolerance.",
+)
